@@ -2999,6 +2999,10 @@ static int32_t parseGeneralNames(psPool_t *pool, const unsigned char **buf,
                 return -1;
             }
             activeName->oid = psMalloc(pool, activeName->oidLen);
+            if (activeName->oid == NULL && activeName->oidLen > 0)
+            {
+                return PS_MEM_FAIL;
+            }
             if ((uint32) (extEnd - p) < activeName->oidLen)
             {
 
